@@ -404,11 +404,13 @@ Qed.
 Theorem schema_reader_sound : forall fuel,
   (forall sc l t rest, parse_sch fuel sc l = Some (t, rest) -> exists w b, WS w /\ GS sc t b /\ l = w ++ b ++ rest) /\
   (forall fs l acc t rest, sch_members fuel fs l acc = Some (t, rest) ->
-     exists w b l', WS w /\ GSM fs l' b /\ l = w ++ b ++ rest /\ t = JObj (rev acc ++ l')).
+     exists w b l', WS w /\ GSM fs l' b /\ l = w ++ b ++ rest /\ t = JObj (rev acc ++ l')) /\
+  (forall fs l acc t rest, sch_elems fuel fs l acc = Some (t, rest) ->
+     exists w b l', WS w /\ GSE fs l' b /\ l = w ++ b ++ rest /\ t = JArr (rev acc ++ l')).
 Proof.
-  induction fuel as [|f IH]; [split; intros; discriminate|].
-  destruct IH as (IHs & IHm).
-  split.
+  induction fuel as [|f IH]; [repeat split; intros; discriminate|].
+  destruct IH as (IHs & IHm & IHe).
+  split; [|split].
   - intros sc l t rest H. cbn [parse_sch] in H. destruct sc as [|fs].
     + apply (proj1 (strict_reader_sound _)) in H. destruct H as (w & b & Hw & Hg & ->).
       exists w, b. repeat split; [assumption|constructor; assumption].
@@ -422,13 +424,23 @@ Proof.
         -- apply IHm in H. destruct H as (w1 & b & l' & Hw1 & Hgm & E & ->). cbn [rev app].
            exists (123 :: (w0 ++ w1) ++ b). split; [assumption|]. split; [constructor; [apply WS_app; assumption|exact Hgm]|].
            rewrite Er, E. norm_app. reflexivity.
-      * pose proof H as H'. apply (proj1 (strict_reader_sound _)) in H. destruct H as (w' & b & Hw' & Hg & E).
-        exists w', b. split; [assumption|]. split; [|exact E].
-        apply GS_other; [exact Hg|]. intros r0 ->.
-        (* the first non-blank byte of l is c <> 123, but l = w' ++ 123 :: ... *)
-        assert (Hsk : skip_ws l = 123 :: r0 ++ rest).
-        { rewrite E. cbn [app]. apply skip_ws_app; [exact Hw'|cbn; reflexivity]. }
-        rewrite Esk in Hsk. injection Hsk as -> _. congruence.
+      * destruct (N.eqb_spec c 91) as [->|N91].
+        -- exists w. rewrite El. clear El.
+           destruct (skip_ws_split r) as (w0 & Hw0 & Er & Hs0). destruct (skip_ws r) as [|d r'] eqn:Esk0; [discriminate|].
+           destruct (N.eqb_spec d 93) as [->|N93].
+           ++ injection H as <- <-. exists (91 :: w0 ++ [93]). split; [assumption|]. split; [apply GS_arr0; assumption|].
+              rewrite Er. norm_app. reflexivity.
+           ++ apply IHe in H. destruct H as (w1 & b & l' & Hw1 & Hge & E & ->). cbn [rev app].
+              exists (91 :: (w0 ++ w1) ++ b). split; [assumption|]. split; [apply GS_arr; [apply WS_app; assumption|exact Hge]|].
+              rewrite Er, E. norm_app. reflexivity.
+        -- pose proof H as H'. apply (proj1 (strict_reader_sound _)) in H. destruct H as (w' & b & Hw' & Hg & E).
+           exists w', b. split; [assumption|]. split; [|exact E].
+           assert (Hsk : forall c0 r0, b = c0 :: r0 -> c0 = c).
+           { intros c0 r0 ->. destruct (G_head _ _ Hg) as (c1 & r1 & E1 & Hc1). injection E1 as <- <-.
+             assert (Hk : skip_ws l = c0 :: r0 ++ rest).
+             { rewrite E. cbn [app]. apply skip_ws_app; [exact Hw'|cbn; apply vstart_nonws; exact Hc1]. }
+             rewrite Esk in Hk. injection Hk as -> _. reflexivity. }
+           apply GS_other; [exact Hg| |]; intros r0 Eb; specialize (Hsk _ _ Eb); congruence.
   - intros fs l acc t rest H. cbn [sch_members] in H.
     destruct (skip_ws_split l) as (w & Hw & El & Hs). destruct (skip_ws l) as [|c r] eqn:Esk; [discriminate|].
     destruct (N.eqb_spec c 34) as [->|N34]; [|discriminate].
@@ -463,6 +475,19 @@ Proof.
       exists w, (kb ++ w2 ++ 58 :: w3 ++ b ++ w4 ++ [125]), [(str_of k, v)].
       split; [assumption|]. split; [constructor; assumption|]. split.
       * rewrite El. change (34 :: r) with ([] ++ 34 :: r). rewrite Ekb, Er1, Er3. norm_app. reflexivity.
+      * reflexivity.
+  - intros fs l acc t rest H. cbn [sch_elems] in H. fold (hd_schema fs) in H.
+    destruct (parse_sch f (hd_schema fs) l) as [[v r]|] eqn:Ev; [|discriminate].
+    apply IHs in Ev. destruct Ev as (w & b & Hw & Hg & ->).
+    destruct (skip_ws_split r) as (w2 & Hw2 & Er & Hs2). destruct (skip_ws r) as [|c r'] eqn:Esk; [discriminate|].
+    destruct (N.eqb_spec c 44) as [->|N44].
+    + apply IHe in H. destruct H as (w1 & b' & l' & Hw1 & Hge & -> & ->).
+      exists w, (b ++ w2 ++ 44 :: w1 ++ b'), (v :: l'). split; [assumption|]. split; [constructor; assumption|]. split.
+      * rewrite Er. norm_app. reflexivity.
+      * cbn [rev]. rewrite <- app_assoc. reflexivity.
+    + destruct (N.eqb_spec c 93) as [->|N93]; [|discriminate]. injection H as <- <-.
+      exists w, (b ++ w2 ++ [93]), [v]. split; [assumption|]. split; [constructor; assumption|]. split.
+      * rewrite Er. norm_app. reflexivity.
       * reflexivity.
 Qed.
 
